@@ -68,6 +68,12 @@ def portfolio(text, expect_sat=False):
 		('z3-5.1/seed11', lambda: run_z3(text, rlimit=RLIMIT // 4, wall=WALL, extra=['smt.random_seed=11', 'sat.random_seed=11'])),
 		('z3-5.1/full', lambda: run_z3(text, rlimit=RLIMIT, wall=WALL)),
 	]
+	if 'str.' in text or '(String' in text or ' String' in text:
+		# string-theory queries: cvc5 decides these far more reliably than z3's sequence solver
+		attempts = [('cvc5-1.0.3', lambda: run_cvc5(text, wall=30)),
+		            ('z3-5.1', lambda: run_z3(text, rlimit=RLIMIT // 8, wall=60)),
+		            ('z3-4.8.12', lambda: run_z3(text, rlimit=RLIMIT // 8, wall=60, binary=Z3_OLD)),
+		            ('cvc5-1.0.3/long', lambda: run_cvc5(text, wall=WALL // 2))]
 	last = 'unknown'
 	for name, f in attempts:
 		v, secs = f()
